@@ -13,7 +13,8 @@
 //   linear   qdot==u mobilizers, constraints LINEAR in q (ConstantCoordinate, CoordinateCoupler with a linear function)
 //            (+ ConstantSpeed rows for projectU), random weights, optional lock: the correction is compared with the
 //            weighted minimum-norm solution.
-//   singular Slider + Rod in the configuration where the Rod's Jacobian vanishes and the Rod cannot be met.
+//   degenerate  (a) a quaternion of length zero; (b) Slider + Rod in the configuration where the Rod's Jacobian
+//            vanishes (or is tiny) and the Rod cannot be met.
 //
 // Model-compared records (answered by lean/Drivers/C09.lean running SimbodyModel/C09.lean at Float):
 //   I projQ  s k r flags acc overshoot limit sig mHolo mQuats qerr0[mHolo+mQuats] Tp[mHolo]
@@ -35,7 +36,7 @@
 // Implementation-only records  I chk <what> s k r / O chk 1  carry P lines only.
 //
 // Predicates (P lines; the property's own clauses evaluated on the implementation's outputs):
-//   success_finite  <site>.nonfiniteNewton.success_sound   success reported but q/u/errors are NaN/Inf
+//   success_finite  <site>.nonfinite.success_sound   success reported but q/u/errors are NaN/Inf
 //   perr_le_acc     recomputed weighted perr norm (RMS or max, as requested) <= accuracy
 //   quat_le_acc     recomputed quaternion-length error norm <= accuracy        (state left untouched)
 //   quat_unit       every quaternion in use has unit length to 1e-14           (state was changed)
@@ -215,7 +216,7 @@ Outcome doProjectQ(Ctx& c, Model& M, State& s, const ProjectOptions& o, const st
     if (success) {
         const double perrOut = normOf(qerr1, 0, mHolo, &Tp, useInf), quatOut = normOf(qerr1, mHolo, mQuats, nullptr, useInf);
         const bool nonfinite = !realized || !finiteV(q1) || !finiteV(qerr1) || std::isnan(perrOut) || std::isnan(quatOut);
-        vh::P("success_finite", "projectQ.nonfiniteNewton.success_sound", nonfinite ? 1 : 0, 0);
+        vh::P("success_finite", "projectQ.nonfinite.success_sound", nonfinite ? 1 : 0, 0);
         if (!nonfinite) {
             vh::P("perr_le_acc", K + ".perr_le_acc", perrOut, acc * (1 + 1e-12) + 1e-15);
             const bool changed = bitDiffs(q0, q1) != 0;
@@ -272,7 +273,7 @@ Outcome doProjectU(Ctx& c, Model& M, State& s, const ProjectOptions& o, const st
     if (success) {
         const double verrOut = normOf(uerr1, 0, m, &Tpv, useInf);
         const bool nonfinite = !realized || !finiteV(u1) || !finiteV(uerr1) || std::isnan(verrOut);
-        vh::P("success_finite", "projectU.nonfiniteNewton.success_sound", nonfinite ? 1 : 0, 0);
+        vh::P("success_finite", "projectU.nonfinite.success_sound", nonfinite ? 1 : 0, 0);
         if (!nonfinite) vh::P("uerr_le_acc", K + ".uerr_le_acc", verrOut, acc * (1 + 1e-12) + 1e-15);
         vh::P("q_untouched", K + ".q_untouched", bitDiffs(q0, q1), 0);
         int bad = 0; for (int i : pres) if (hex(u0[i]) != hex(u1[i])) ++bad;
@@ -472,7 +473,7 @@ void generalCase(Ctx& c, vh::Rng& g) {
         const Vector Tp = s.getQErrWeights(), Tpv = s.getUErrWeights();
         const double pn = normOf(qerr, 0, mHolo, &Tp, false), qn = normOf(qerr, mHolo, mQuats, nullptr, false), vn = normOf(uerr, 0, uerr.size(), &Tpv, false);
         const bool nonfinite = !realized || !finiteV(s.getQ()) || !finiteV(s.getU()) || std::isnan(pn) || std::isnan(qn) || std::isnan(vn);
-        vh::P("success_finite", "project.nonfiniteNewton.success_sound", nonfinite ? 1 : 0, 0);
+        vh::P("success_finite", "project.nonfinite.success_sound", nonfinite ? 1 : 0, 0);
         if (nonfinite) return;
         vh::P("perr_le_acc", std::string("project.") + (rawQuat ? "rawQuatCoord" : "random") + ".perr_le_acc", pn, accA * (1 + 1e-12) + 1e-15);
         vh::P("quat_unit", "project.random.quat_unit", maxQuatDeviation(quatsOf(M, s), s.getQ()), 1e-14);
@@ -567,11 +568,27 @@ void linearCase(Ctx& c, vh::Rng& g) {
     }
 }
 
-// --------------------------------------------------------------------------- stream: singular (infeasible Rod, vanishing Jacobian)
-void singularCase(Ctx& c, vh::Rng& g) {
+// --------------------------------------------------------------------------- stream: degenerate
+// (a) a quaternion of length ZERO (the boundary of "unnormalised quaternions"): normalisation yields 0/0;
+// (b) Slider + Rod where the Rod's Jacobian q/|p| is 0 or tiny and the Rod cannot be met at all.
+void degenerateCase(Ctx& c, vh::Rng& g) {
     Model M;
     M.bodies.push_back(M.matter.Ground()); M.parent.push_back(0); M.mtype.push_back(-1);
     Body::Rigid body(MassProperties(1, Vec3(0), UnitInertia(1)));
+    if (g.coin()) {
+        const bool free = g.coin();
+        MobilizedBody b1 = free ? (MobilizedBody)MobilizedBody::Free(M.matter.Ground(), Transform(), body, Transform())
+                                : (MobilizedBody)MobilizedBody::Ball(M.matter.Ground(), Transform(), body, Transform());
+        M.bodies.push_back(b1); M.parent.push_back(0); M.mtype.push_back(free ? mFree : mBall);
+        const bool withCons = g.coin();
+        if (withCons) Constraint::Rod(M.matter.Ground(), Vec3(0, 1, 0), b1, Vec3(0.5, 0, 0), g.range(0.8, 1.2));   // takes the Newton path
+        M.state = M.system.realizeTopology(); M.system.realizeModel(M.state);
+        State& s = M.state;
+        Vector q = s.getQ(); for (int i = 0; i < 4; ++i) q[i] = 0.0; s.updQ() = q;           // zero-length quaternion
+        M.system.realize(s, Stage::Time); M.system.prescribeQ(s); M.system.realize(s, Stage::Position);
+        doProjectQ(c, M, s, randomOptions(g), "zeroQuat", {});
+        return;
+    }
     MobilizedBody::Slider b1(M.matter.Ground(), Transform(), body, Transform());          // slides along x
     M.bodies.push_back(b1); M.parent.push_back(0); M.mtype.push_back(mSlider);
     const double h = g.range(2.0, 6.0), d = g.range(0.05, 1.0);                            // rod shorter than the distance to the line
@@ -589,7 +606,7 @@ void oneCase(uint64_t seed, long k) {
     const int stream = (int)(k % 16);
     try {
         normqRecord(c, g);
-        if (stream == 7) singularCase(c, g);
+        if (stream == 7) degenerateCase(c, g);
         else if (stream % 4 == 1) linearCase(c, g);
         else generalCase(c, g);
     } catch (const std::exception& e) {
